@@ -192,6 +192,7 @@ def sh(cmd, cwd=None, timeout=None, env=None):
 def setup_worker(out, k):
     W = os.path.join(out, "w%d" % k)
     if os.path.exists(os.path.join(W, "ready")):
+        sh(["git", "-C", os.path.join(W, "repo"), "checkout", "--", "."])   # a killed run may have left a mutant behind
         return W
     shutil.rmtree(W, ignore_errors=True)
     os.makedirs(W)
@@ -293,6 +294,11 @@ def run(out, workers, only, limit, tier):
                 m = q.get_nowait()
             except queue.Empty:
                 return
+            try:
+                os.makedirs(os.path.join(out, "claims"), exist_ok=True)
+                os.mkdir(os.path.join(out, "claims", m["id"]))      # atomic claim: several runs may share DIR
+            except FileExistsError:
+                continue
             try:
                 r = run_one(W, m, tier)
             except Exception as e:   # noqa
